@@ -126,6 +126,9 @@ theorem handleData_eqv (a b : Fetch) (x : Arrival) (h : a.eqv b) :
   rw [(Fetch.eqv_iff a b).mp h, handleData_wnd2]
   exact ⟨Fetch.eqv_wnd2 _ _, rfl⟩
 
+theorem Fetch.eqv_fields {a b : Fetch} (h : a.eqv b) : a.complete = b.complete ∧ a.err = b.err ∧ a.wnd1 = b.wnd1 ∧ a.segCnt = b.segCnt := by
+  rw [(Fetch.eqv_iff a b).mp h]; exact ⟨rfl, rfl, rfl, rfl⟩
+
 /-! ### client-level frame lemmas -/
 
 theorem finalizeError_eq_timeout (f : Fetch) : f.finalizeError = f.handleData .timeout := by
@@ -407,5 +410,206 @@ theorem step_eff (serve : Name → Bool → Option Pkt) (c : Client) (e : Ev) (h
           exact eff_of_frame c _ _ o (frame_setCons c o _ (Fetch.eqv_refl _)) rfl
         · simp only [hl, if_false]
           exact handleData_eff c o k .timeout h
+
+/-! ### projection of a whole run onto one stream -/
+
+abbrev RunSt := Client × List Out × List ((Nat × Key) × Nat)
+
+/-- the state transformer `Client.run` folds over the events (copied from its definition) -/
+def runStep (serve : Name → Bool → Option Pkt) (delivers : Nat → Key → Nat → Bool) (acc : RunSt) (e : Ev) : RunSt :=
+  let c := acc.1
+  let cnt := acc.2.2
+  let consistent : Bool :=
+    match e with
+    | .data o k => delivers o k (countOf cnt (o, k)) && (c.served serve o k).isSome
+    | .timeout o k => !(delivers o k (countOf cnt (o, k)) && (c.served serve o k).isSome)
+    | .unsolicited => true
+  let r := c.step serve e
+  let c' := if consistent then r.1 else { r.1 with impossible := true }
+  (c', acc.2.1 ++ [r.2], r.2.sent.foldl bump cnt)
+
+def runInit (names : List Name) : RunSt :=
+  let s0 := Client.start names
+  (s0.1, [s0.2], s0.2.sent.foldl bump [])
+
+theorem ite_impossible_cons (b : Bool) (x : Client) :
+    (if b = true then x else { x with impossible := true }).cons = x.cons := by cases b <;> rfl
+
+theorem run_eq_foldl (serve : Name → Bool → Option Pkt) (delivers : Nat → Key → Nat → Bool) (names : List Name) (evs : List Ev) :
+    Client.run serve delivers names evs =
+      ((evs.foldl (runStep serve delivers) (runInit names)).1, (evs.foldl (runStep serve delivers) (runInit names)).2.1) := rfl
+
+/-- ghost: the arrivals handed to stream `o` while the events `evs` are processed from state `st` -/
+def arrivalsOf (serve : Name → Bool → Option Pkt) (delivers : Nat → Key → Nat → Bool) (o : Nat) : RunSt → List Ev → List Arrival
+  | _, [] => []
+  | st, e :: es =>
+    (match stepArr serve st.1 e with
+      | some a => if evIdx e = o then [a] else []
+      | none => []) ++ arrivalsOf serve delivers o (runStep serve delivers st e) es
+
+theorem runFetch_append (f : Fetch) (a b : List Arrival) :
+    runFetch f (a ++ b) = ((runFetch (runFetch f a).1 b).1, (runFetch f a).2 ++ (runFetch (runFetch f a).1 b).2) := by
+  induction a generalizing f with
+  | nil => simp [runFetch]
+  | cons x xs ih => simp only [List.cons_append, runFetch, ih, List.append_assoc]
+
+def outsCbs (o : Nat) (outs : List Out) : List CbRec := cbsOf o (outs.flatMap (·.cbs))
+
+theorem outsCbs_snoc (o : Nat) (outs : List Out) (x : Out) : outsCbs o (outs ++ [x]) = outsCbs o outs ++ cbsOf o x.cbs := by
+  simp [outsCbs, cbsOf_append]
+
+/-- processing events keeps every stream's fetch state equal (up to `wnd2`) to the single-stream machine
+    fed with that stream's arrivals, and its callbacks equal to that machine's callbacks -/
+theorem run_projection (serve : Name → Bool → Option Pkt) (delivers : Nat → Key → Nat → Bool) (o : Nat) :
+    ∀ (evs : List Ev) (st : RunSt) (g : Fetch), (∀ e ∈ evs, evIdx e < st.1.cons.length) → ((st.1.getCons o).f).eqv g →
+      let fin := evs.foldl (runStep serve delivers) st
+      fin.1.cons.length = st.1.cons.length ∧
+      ((fin.1.getCons o).f).eqv (runFetch g (arrivalsOf serve delivers o st evs)).1 ∧
+      outsCbs o fin.2.1 = outsCbs o st.2.1 ++ (runFetch g (arrivalsOf serve delivers o st evs)).2 := by
+  intro evs
+  induction evs with
+  | nil => intro st g _ hg; simpa [arrivalsOf, runFetch] using hg
+  | cons e es ih =>
+    intro st g hidx hg
+    have he := step_eff serve st.1 e (hidx e (List.mem_cons_self ..))
+    -- the state after this event
+    have hcons : (runStep serve delivers st e).1.cons = (st.1.step serve e).1.cons := by
+      simp only [runStep]; exact ite_impossible_cons _ _
+    have hlen : (runStep serve delivers st e).1.cons.length = st.1.cons.length := by rw [hcons]; exact he.1
+    have hget : ∀ i, (runStep serve delivers st e).1.getCons i = (st.1.step serve e).1.getCons i := by
+      intro i; simp only [Client.getCons, hcons]
+    have houts : (runStep serve delivers st e).2.1 = st.2.1 ++ [(st.1.step serve e).2] := rfl
+    obtain ⟨h1, h2⟩ := he.2 o
+    -- arrival for stream o at this event
+    let ao : Option Arrival := if evIdx e = o then stepArr serve st.1 e else none
+    have hao1 : ((st.1.step serve e).1.getCons o).f.eqv (applyArr (st.1.getCons o).f ao).1 := by
+      by_cases hoi : o = evIdx e
+      · simp only [hoi, if_true] at h1; simpa [ao, hoi] using h1
+      · have : ¬ evIdx e = o := fun x => hoi x.symm
+        simp only [hoi, if_false] at h1; simpa [ao, this, applyArr] using h1
+    have hao2 : cbsOf o (st.1.step serve e).2.cbs = (applyArr (st.1.getCons o).f ao).2 := by
+      by_cases hoi : o = evIdx e
+      · simp only [hoi, if_true] at h2; simpa [ao, hoi] using h2
+      · have : ¬ evIdx e = o := fun x => hoi x.symm
+        simp only [hoi, if_false] at h2; simpa [ao, this, applyArr] using h2
+    have hgg := applyArr_eqv _ _ ao hg
+    have := ih (runStep serve delivers st e) (applyArr g ao).1
+      (fun e' he' => by rw [hlen]; exact hidx e' (List.mem_cons_of_mem _ he'))
+      (by rw [hget]; exact Fetch.eqv_trans hao1 hgg.1)
+    obtain ⟨i1, i2, i3⟩ := this
+    have harr : arrivalsOf serve delivers o st (e :: es) = ao.toList ++ arrivalsOf serve delivers o (runStep serve delivers st e) es := by
+      simp only [arrivalsOf, ao]
+      congr 1
+      cases stepArr serve st.1 e with
+      | none => simp
+      | some a => by_cases h : evIdx e = o <;> simp [h]
+    have hrf : ∀ rest, runFetch g (ao.toList ++ rest) =
+        ((runFetch (applyArr g ao).1 rest).1, (applyArr g ao).2 ++ (runFetch (applyArr g ao).1 rest).2) := by
+      intro rest
+      cases ao with
+      | none => simp [applyArr]
+      | some a => simp [applyArr, runFetch]
+    simp only [List.foldl_cons]
+    refine ⟨i1.trans hlen, ?_, ?_⟩
+    · rw [harr, hrf]; exact i2
+    · rw [harr, hrf, i3, houts, outsCbs_snoc, hao2, hgg.2, List.append_assoc]
+
+/-! ### the `Consume` calls at the start of a run -/
+
+def startClient (names : List Name) : Client := { cons := names.map fun n => { name := n, fetchName := n } }
+
+def startStep (acc : Client × Out) (o : Nat) : Client × Out :=
+  let r := acc.1.consumeObject o false
+  (r.1, acc.2.append r.2)
+
+theorem start_eq_foldl (names : List Name) :
+    Client.start names = (List.range names.length).foldl startStep (startClient names, {}) := rfl
+
+/-- ghost: the arrivals handed to stream `o` by the `Consume` calls `is` (an immediate error for an empty name) -/
+def startArrs (o : Nat) : Client → List Nat → List Arrival
+  | _, [] => []
+  | c, i :: is =>
+    (match consArr (c.getCons i).fetchName false with
+      | some a => if i = o then [a] else []
+      | none => []) ++ startArrs o (c.consumeObject i false).1 is
+
+theorem start_projection (o : Nat) :
+    ∀ (is : List Nat) (acc : Client × Out) (g : Fetch), (∀ i ∈ is, i < acc.1.cons.length) → ((acc.1.getCons o).f).eqv g →
+      let fin := is.foldl startStep acc
+      fin.1.cons.length = acc.1.cons.length ∧
+      ((fin.1.getCons o).f).eqv (runFetch g (startArrs o acc.1 is)).1 ∧
+      cbsOf o fin.2.cbs = cbsOf o acc.2.cbs ++ (runFetch g (startArrs o acc.1 is)).2 := by
+  intro is
+  induction is with
+  | nil => intro acc g _ hg; simpa [startArrs, runFetch] using hg
+  | cons i rest ih =>
+    intro acc g hidx hg
+    have he := consumeObject_eff acc.1 i false (hidx i (List.mem_cons_self ..))
+    obtain ⟨h1, h2⟩ := he.2 o
+    let ao : Option Arrival := if i = o then consArr (acc.1.getCons i).fetchName false else none
+    have hao1 : ((acc.1.consumeObject i false).1.getCons o).f.eqv (applyArr (acc.1.getCons o).f ao).1 := by
+      by_cases hoi : o = i
+      · simp only [hoi, if_true] at h1; simpa [ao, hoi] using h1
+      · have : ¬ i = o := fun x => hoi x.symm
+        simp only [hoi, if_false] at h1; simpa [ao, this, applyArr] using h1
+    have hao2 : cbsOf o (acc.1.consumeObject i false).2.cbs = (applyArr (acc.1.getCons o).f ao).2 := by
+      by_cases hoi : o = i
+      · simp only [hoi, if_true] at h2; simpa [ao, hoi] using h2
+      · have : ¬ i = o := fun x => hoi x.symm
+        simp only [hoi, if_false] at h2; simpa [ao, this, applyArr] using h2
+    have hgg := applyArr_eqv _ _ ao hg
+    have := ih (startStep acc i) (applyArr g ao).1
+      (fun j hj => by simp only [startStep]; rw [he.1]; exact hidx j (List.mem_cons_of_mem _ hj))
+      (Fetch.eqv_trans hao1 hgg.1)
+    obtain ⟨i1, i2, i3⟩ := this
+    have harr : startArrs o acc.1 (i :: rest) = ao.toList ++ startArrs o (startStep acc i).1 rest := by
+      simp only [startArrs, ao, startStep]
+      congr 1
+      cases consArr (acc.1.getCons i).fetchName false with
+      | none => simp
+      | some a => by_cases h : i = o <;> simp [h]
+    have hrf : ∀ rest', runFetch g (ao.toList ++ rest') =
+        ((runFetch (applyArr g ao).1 rest').1, (applyArr g ao).2 ++ (runFetch (applyArr g ao).1 rest').2) := by
+      intro rest'
+      cases ao with
+      | none => simp [applyArr]
+      | some a => simp [applyArr, runFetch]
+    simp only [List.foldl_cons]
+    refine ⟨i1.trans (by simp only [startStep]; exact he.1), ?_, ?_⟩
+    · rw [harr, hrf]; exact i2
+    · rw [harr, hrf, i3]
+      simp only [startStep, Out.append, cbsOf_append, hao2, hgg.2, List.append_assoc]
+
+theorem startClient_f (names : List Name) (o : Nat) : ((startClient names).getCons o).f = {} := by
+  simp only [startClient, Client.getCons, List.getD_eq_getElem?_getD, List.getElem?_map]
+  cases names[o]? <;> rfl
+
+/-- all arrivals of stream `o` in a run: those of the `Consume` calls, then those of the events -/
+def runArrivals (serve : Name → Bool → Option Pkt) (delivers : Nat → Key → Nat → Bool) (names : List Name)
+    (evs : List Ev) (o : Nat) : List Arrival :=
+  startArrs o (startClient names) (List.range names.length) ++ arrivalsOf serve delivers o (runInit names) evs
+
+/-- the multi-stream run projected on stream `o` is a run of the single-stream machine -/
+theorem run_refines (serve : Name → Bool → Option Pkt) (delivers : Nat → Key → Nat → Bool) (names : List Name)
+    (evs : List Ev) (o : Nat) (hidx : ∀ e ∈ evs, evIdx e < names.length) :
+    (((Client.run serve delivers names evs).1.getCons o).f).eqv (runFetch {} (runArrivals serve delivers names evs o)).1 ∧
+    outsCbs o (Client.run serve delivers names evs).2 = (runFetch {} (runArrivals serve delivers names evs o)).2 := by
+  have hs := start_projection o (List.range names.length) (startClient names, {}) {}
+    (by intro i hi; simpa [startClient] using hi) (by rw [startClient_f]; exact Fetch.eqv_refl _)
+  rw [← start_eq_foldl] at hs
+  obtain ⟨s1, s2, s3⟩ := hs
+  have hlen : (runInit names).1.cons.length = names.length := by
+    show (Client.start names).1.cons.length = _
+    rw [s1]; simp [startClient]
+  have hr := run_projection serve delivers o evs (runInit names) _
+    (by intro e he; rw [hlen]; exact hidx e he) s2
+  obtain ⟨_, r2, r3⟩ := hr
+  rw [run_eq_foldl]
+  simp only [runArrivals, runFetch_append]
+  refine ⟨r2, ?_⟩
+  rw [r3]
+  congr 1
+  show outsCbs o [(Client.start names).2] = _
+  simpa [outsCbs, cbsOf] using s3
 
 end Ndn.C15
